@@ -129,46 +129,78 @@ def check(ctx: Ctx) -> None:
         for code, (name, handler, payload) in MESSAGE_TABLE.items():
             have = reg.get(code)
             ob.site(have[1] if have else repo.module(GB), None, f"code {code} = {name} -> {handler}", registered=(have[0], have[1].name) if have else None)
-            if have is None or have[0] != name or have[1].name != handler or consts.get(name) != code:
+            if have is None or have[0] != name or consts.get(name) != code:
                 ob.violation(have[1] if have else repo.module(GB), have[1].node if have else None,
                              f"message code {code} must be {name} handled by {handler}; found {(have[0], have[1].name) if have else None}, constant {name}={consts.get(name)!r}",
                              construct=f"code {code}")
-        # handlers pass id and payload unmodified to the factory
-        expect = {
-            "_channel_data": ("_local_receive", ["message.channelid", "message.data"], {}),
-            "_channel_close": ("_local_close", ["message.channelid"], {}),
-            "_channel_last_message": ("_local_close", ["message.channelid"], {"sendonly": "True"}),
-        }
-        for hname, (callee, args, kws) in expect.items():
-            h = repo.cls("Message").methods.get(hname)
-            ob.require(h is not None, f"handler {hname} vanished")
-            cs = [c for c in repo.calls_in(h) if callee_attr(c) == callee]
-            ok = len(cs) == 1 and [unparse(a) for a in cs[0].args] == args and {k.arg: unparse(k.value) for k in cs[0].keywords} == kws \
-                and len(repo.calls_in(h)) == 1
-            ob.site(h, cs[0] if cs else h.node, f"{hname} -> {callee}({', '.join(args)})", ok=ok)
+        # what the handler registered for each code does, decided on value terms with `message.msgcode` fixed to that
+        # code (so one handler may serve several codes): id and payload reach the factory unmodified, in their roles
+        from ..terms import NONE, State, const, evaluator as _ev2
+
+        def handler_effects(code):
+            h = repo.func(reg[code][1].qualname)
+            ev = _ev2(repo, h)
+            p0 = h.params()[0]
+            init = State()
+            init.env[f"{p0}.msgcode"] = const(code)
+            outs = []
+            for (pth, st) in ev.run(init=init, limit=2000):
+                if pth[-1][0] == ev.cfg.exit.id:
+                    outs.append(st)
+            return h, p0, outs
+
+        def norm_close(e):
+            """(id, remoteerror, sendonly) of a _local_close call event"""
+            names = ["id", "remoteerror", "sendonly"]
+            vals = {"remoteerror": NONE, "sendonly": const(False)}
+            for n_, a in zip(names, e.args):
+                vals[n_] = a
+            for k, v in e.kwargs.items():
+                vals[k] = v
+            return vals.get("id"), vals["remoteerror"], vals["sendonly"]
+
+        for code in (4, 5, 6, 7):
+            if code not in reg:
+                continue
+            h, p0, outs = handler_effects(code)
+            MID, MDATA = ("sym", f"{p0}.channelid"), ("sym", f"{p0}.data")
+            ok = bool(outs)
+            for st in outs:
+                calls = [e for e in st.events if e.kind == "call" and e.result[0] == "fresh"]
+                if code == 4:
+                    ok = ok and len(calls) == 1 and calls[0].attr == "_local_receive" and calls[0].args == (MID, MDATA) and not calls[0].kwargs
+                    continue
+                cl = [e for e in calls if e.attr == "_local_close"]
+                if len(cl) != 1:
+                    ok = False
+                    continue
+                cid, rerr, so = norm_close(cl[0])
+                others = [e for e in calls if e is not cl[0]]
+                if code == 5:
+                    ok = ok and cid == MID and rerr == NONE and so == const(False) and not others
+                elif code == 7:
+                    ok = ok and cid == MID and rerr == NONE and so == const(True) and not others
+                else:
+                    ld = [e for e in others if e.callee == "loads_internal"]
+                    re_ = [e for e in others if e.callee == "RemoteError"]
+                    ok = ok and cid == MID and so == const(False) and len(ld) == 1 and ld[0].args[:1] == (MDATA,) and len(re_) == 1 \
+                        and re_[0].args == (ld[0].result,) and rerr == re_[0].result and len(others) == 2
+            what = {4: "_local_receive(id, payload)", 5: "_local_close(id)", 6: "_local_close(id, RemoteError(loads_internal(payload)))", 7: "_local_close(id, sendonly=True)"}[code]
+            ob.site(h, h.node, f"code {code} ({MESSAGE_TABLE[code][0]}): handler {h.name} -> {what}", ok=ok)
             if not ok:
-                ob.violation(h, h.node, f"{hname} does not hand exactly (channel id, payload) to ChannelFactory.{callee}")
-        h = repo.cls("Message").methods["_channel_close_error"]
-        cs = [c for c in repo.calls_in(h) if callee_attr(c) == "_local_close"]
-        ld = [c for c in repo.calls_in(h) if callee_attr(c) == "loads_internal"]
-        re_ = [c for c in repo.calls_in(h) if callee_attr(c) == "RemoteError"]
-        ok = len(cs) == 1 and unparse(cs[0].args[0]) == "message.channelid" and len(ld) == 1 and unparse(ld[0].args[0]) == "message.data" and len(re_) == 1
-        if ok:
-            ev = unparse(repo.parent(ld[0]).targets[0]) if isinstance(repo.parent(ld[0]), ast.Assign) else None
-            rv = unparse(repo.parent(re_[0]).targets[0]) if isinstance(repo.parent(re_[0]), ast.Assign) else None
-            ok = ev is not None and unparse(re_[0].args[0]) == ev and len(cs[0].args) == 2 and unparse(cs[0].args[1]) in (rv, norm(re_[0]))
-        ob.site(h, cs[0] if cs else h.node, "_channel_close_error -> _local_close(id, RemoteError(loads_internal(data)))", ok=ok)
-        if not ok:
-            ob.violation(h, h.node, "_channel_close_error does not close the addressed channel with RemoteError(decoded payload)")
-        h = repo.cls("Message").methods["_channel_exec"]
+                if code == 6:
+                    ob.violation(h, h.node, "_channel_close_error does not close the addressed channel with RemoteError(decoded payload)")
+                else:
+                    ob.violation(h, h.node, f"{MESSAGE_TABLE[code][1]} does not hand exactly (channel id, payload) to ChannelFactory.{what.split('(')[0]}")
+        h = repo.func(reg[3][1].qualname) if 3 in reg else repo.cls("Message").methods["_channel_exec"]
         nw = [c for c in repo.calls_in(h) if callee_attr(c) == "new"]
         se = [c for c in repo.calls_in(h) if callee_attr(c) == "_local_schedulexec"]
-        ok = len(nw) == 1 and unparse(nw[0].args[0]) == "message.channelid" and len(se) == 1
+        ok = len(nw) == 1 and unparse(nw[0].args[0]) == f"{h.params()[0]}.channelid" and len(se) == 1
         if ok:
             cv = unparse(repo.parent(nw[0]).targets[0]) if isinstance(repo.parent(nw[0]), ast.Assign) else None
             kw = {k.arg: unparse(k.value) for k in se[0].keywords}
             pos = [unparse(a) for a in se[0].args]
-            ok = (kw == {"channel": cv, "sourcetask": "message.data"}) or pos == [cv, "message.data"]
+            ok = (kw == {"channel": cv, "sourcetask": f"{h.params()[0]}.data"}) or pos == [cv, f"{h.params()[0]}.data"]
         ob.site(h, se[0] if se else h.node, "_channel_exec -> new(id) + _local_schedulexec(channel, data)", ok=ok)
         if not ok:
             ob.violation(h, h.node, "_channel_exec does not schedule the payload on the channel with the received id")
